@@ -25,8 +25,12 @@ VARIABLES sel,    \* [Sessions -> Dbs]  (every session starts with "d" selected)
           wl,     \* [Dbs -> sequence of sessions]
           sub,    \* [Dbs -> set of sessions]   (reference)
           nw,     \* number of writes so far (values are distinguishable)
+          kst,    \* what the node holds for k of database d: "New" | "Ok" (on disk) | "Tomb" (removed, on disk) |
+                  \* no entry: "Gone" (a New entry dropped by remove) | "Forgotten" (a tombstone forgotten by a reclaiming
+                  \* snapshot) -- the same state of the node, reached through different code: kept apart so that TLC
+                  \* explores what follows each
           hist
-vars == <<sel, gone, wl, sub, nw, hist>>
+vars == <<sel, gone, wl, sub, nw, kst, hist>>
 
 Token(d) == IF d = "d" THEN "tok" ELSE "tok2"
 Writer(d) == IF d = "d" THEN "wd" ELSE "we"
@@ -39,6 +43,7 @@ Init ==
   /\ wl = [d \in Dbs |-> <<>>]
   /\ sub = [d \in Dbs |-> {}]
   /\ nw = 0
+  /\ kst = "New"
   /\ hist = <<>>
 
 Log(c, rec) == hist' = Append(hist, rec @@ [c |-> c])
@@ -48,20 +53,20 @@ Watch(s) ==
   /\ Log(s, [op |-> "watch", k |-> "k"])
   /\ wl' = [wl EXCEPT ![sel[s]] = Append(@, s)]
   /\ sub' = [sub EXCEPT ![sel[s]] = @ \cup {s}]
-  /\ UNCHANGED <<sel, gone, nw>>
+  /\ UNCHANGED <<sel, gone, nw, kst>>
 
 Unwatch(s, all) ==
   /\ s \notin gone
   /\ Log(s, IF all THEN [op |-> "unwatch-all"] ELSE [op |-> "unwatch", k |-> "k"])
   /\ wl' = [wl EXCEPT ![sel[s]] = Without(@, s)]
   /\ sub' = [sub EXCEPT ![sel[s]] = @ \ {s}]
-  /\ UNCHANGED <<sel, gone, nw>>
+  /\ UNCHANGED <<sel, gone, nw, kst>>
 
 Select(s, d) ==
   /\ s \notin gone /\ sel[s] # d
   /\ Log(s, [op |-> "use-db", d |-> d, tok |-> Token(d), u |-> "-"])
   /\ sel' = [sel EXCEPT ![s] = d]
-  /\ UNCHANGED <<gone, wl, sub, nw>>
+  /\ UNCHANGED <<gone, wl, sub, nw, kst>>
 
 Close(s) ==
   /\ s \notin gone
@@ -69,7 +74,7 @@ Close(s) ==
   /\ gone' = gone \cup {s}
   /\ wl' = [wl EXCEPT ![sel[s]] = Without(@, s)]     \* unwatch-all on the selected database only
   /\ sub' = [d \in Dbs |-> sub[d] \ {s}]             \* reference: a disconnect ends every subscription
-  /\ UNCHANGED <<sel, nw>>
+  /\ UNCHANGED <<sel, nw, kst>>
 
 Write(d, kind) ==
   /\ nw < 3
@@ -77,13 +82,25 @@ Write(d, kind) ==
                       [] kind = "remove" -> [op |-> "remove", k |-> "k"]
                       [] OTHER -> [op |-> "increment", k |-> "n", n |-> 1])
   /\ nw' = nw + 1
+  /\ kst' = IF d # "d" THEN kst
+            ELSE IF kind = "remove" THEN (IF kst \in {"Ok", "Tomb"} THEN "Tomb" ELSE IF kst = "New" THEN "Gone" ELSE kst)
+            ELSE (IF kst \in {"Gone", "Forgotten"} THEN "New" ELSE IF kst = "Tomb" THEN "Ok" ELSE kst)
   /\ UNCHANGED <<sel, gone, wl, sub>>
+
+(* a snapshot of database d and the declutter tick that runs it: the key reaches the disk; a reclaiming one forgets *)
+(* the tombstone of a removed key.  Subscriptions are not its business: neither the reference nor the watcher    *)
+(* lists change                                                                                                    *)
+Snap(reclaim) ==
+  /\ hist' = hist \o << [c |-> "a", op |-> "snapshot", reclaim |-> reclaim, names |-> <<"d">>], [c |-> "-", op |-> "tick"] >>
+  /\ kst' = IF kst = "New" THEN "Ok" ELSE IF kst = "Tomb" /\ reclaim THEN "Forgotten" ELSE kst
+  /\ UNCHANGED <<sel, gone, wl, sub, nw>>
 
 Next ==
   /\ Len(hist) < MaxLen
   /\ \/ \E s \in Sessions : Watch(s) \/ Close(s) \/ \E a \in BOOLEAN : Unwatch(s, a)
      \/ \E s \in Sessions, d \in Dbs : Select(s, d)
      \/ \E d \in Dbs, kind \in {"set", "remove"} : Write(d, kind)
+     \/ \E r \in BOOLEAN : Snap(r)
 
 Spec == Init /\ [][Next]_vars
 
@@ -93,6 +110,6 @@ Notified == \A d \in Dbs : Delivered(d) = sub[d]
 (* an entry with a closed channel can be left behind, and it can stand before a live one *)
 DeadBeforeLive == \E d \in Dbs : \E i, j \in DOMAIN wl[d] : i < j /\ wl[d][i] \in gone /\ wl[d][j] \notin gone
 
-View == <<sel, gone, wl, sub, nw>>
+View == <<sel, gone, wl, sub, nw, kst>>
 Emit == PrintT(<<"CASE", ToJson(hist')>>)
 =============================================================================
